@@ -314,6 +314,37 @@ pub fn run_keys(out_path: &str, tier: &str) {
 				}
 			}
 		}
+		// typed wrappers built by the caller: every encoding inside every label of PrivateKeyDer (the label may be wrong - the
+		// type does not check it), detected and told; a wrongly labelled key loads as the same key or is refused
+		for o in origins(tier, &mut rng) {
+			let mut kj = key_json(&o.info);
+			kj["type"] = json!(if o.info.ktype.starts_with("rsa") { "rsa" } else { o.info.ktype.as_str() });
+			for wrapper in ["pkcs8", "sec1", "pkcs1"] {
+				let wrap = |b: &[u8]| -> PrivateKeyDer<'static> {
+					match wrapper {
+						"pkcs8" => PrivateKeyDer::Pkcs8(PrivatePkcs8KeyDer::from(b.to_vec())),
+						"sec1" => PrivateKeyDer::Sec1(pki_types::PrivateSec1KeyDer::from(b.to_vec())),
+						_ => PrivateKeyDer::Pkcs1(pki_types::PrivatePkcs1KeyDer::from(b.to_vec())),
+					}
+				};
+				let mut reqs: Vec<(&str, Option<&'static SignatureAlgorithm>)> = vec![("none", None)];
+				reqs.extend(ALL_ALGS.iter().filter_map(|r| alg_static(r).map(|a| (*r, Some(a)))));
+				for (req, a) in reqs {
+					n += 1;
+					let entry = if a.is_some() { "typed-explicit" } else { "typed-auto" };
+					let args = json!({"key": kj, "entry": entry, "wrapper": wrapper, "fmt": o.fmt, "reqAlg": req, "origin": o.info.src});
+					let r = guarded(|| match a {
+						Some(a) => KeyPair::from_der_and_sign_algo(&wrap(&o.bytes), a),
+						None => KeyPair::try_from(&wrap(&o.bytes)),
+					});
+					match r {
+						Outcome::Ok(kp) => out.event("KeyWrapped", &format!("key/{}", n), args, "Ok", "", loaded_obs(&kp, &o.info, a)),
+						Outcome::Err(e) => out.event("KeyWrapped", &format!("key/{}", n), args, "Err", &e, json!({})),
+						Outcome::Panic(m) => out.event("KeyWrapped", &format!("key/{}", n), args, "Panic", &m, json!({})),
+					}
+				}
+			}
+		}
 		// algorithm table: equality, hashing, lookup by OID
 		use std::hash::{Hash, Hasher};
 		let algs: Vec<(&str, &'static SignatureAlgorithm)> = ALL_ALGS.iter().filter_map(|n| alg_static(n).map(|a| (*n, a))).collect();
